@@ -142,3 +142,190 @@ Fixpoint pevalQ (a : list Q) (y : Q) : Q :=
   match a with [] => 0%Q | c :: r => (c + y * pevalQ r y)%Q end.
 
 Definition Qabs_le (a b tol : Q) : bool := Qle_bool (Qabs (a - b)) tol.
+
+(** * Composition: what the executable value model [derivQ] returns is the real stencil of
+      the selected row, hence exact whenever the table rows are *)
+
+
+Lemma Forall2_nth_error_pair {A B} (P : A -> B -> Prop) l1 l2 k a b :
+  Forall2 P l1 l2 -> nth_error l1 k = Some a -> nth_error l2 k = Some b -> P a b.
+Proof.
+  intro H; revert k; induction H; intros [|k]; cbn; try discriminate.
+  - intros E1 E2; injection E1 as <-; injection E2 as <-; assumption.
+  - apply IHForall2.
+Qed.
+
+Lemma pyindex_pair {A B} (l1 : list A) (l2 : list B) z a b :
+  length l1 = length l2 -> pyindex l1 z = Some a -> pyindex l2 z = Some b ->
+  exists k, nth_error l1 k = Some a /\ nth_error l2 k = Some b.
+Proof.
+  intro E; unfold pyindex; rewrite E.
+  destruct (z <? 0)%Z; [destruct (Z.of_nat (length l2) + z <? 0)%Z; [discriminate|]|]; eauto.
+Qed.
+
+Lemma pyindex_in_range {A} (l : list A) z :
+  (- Z.of_nat (length l) <= z < Z.of_nat (length l))%Z -> exists a, pyindex l z = Some a.
+Proof.
+  intro H; unfold pyindex.
+  destruct (Z.ltb_spec z 0).
+  - destruct (Z.ltb_spec (Z.of_nat (length l) + z) 0); [lia|].
+    destruct (nth_error l (Z.to_nat (Z.of_nat (length l) + z))) eqn:E; [eauto|].
+    apply nth_error_None in E; lia.
+  - destruct (nth_error l (Z.to_nat z)) eqn:E; [eauto|].
+    apply nth_error_None in E; lia.
+Qed.
+
+Lemma pyindex_In {A} (l : list A) z a : pyindex l z = Some a -> In a l.
+Proof.
+  unfold pyindex.
+  destruct (z <? 0)%Z; [destruct (Z.of_nat (length l) + z <? 0)%Z; [discriminate|]|];
+    apply nth_error_In.
+Qed.
+
+Lemma table_exact_length n cT pT : table_exact n cT pT -> length cT = length pT.
+Proof. intro H; induction H; cbn; [reflexivity|f_equal; assumption]. Qed.
+
+Lemma table_exact_pyindex n cT pT z c p :
+  table_exact n cT pT -> pyindex cT z = Some c -> pyindex pT z = Some p ->
+  length c = length p /\ row_exact n (length c - 1) c p.
+Proof.
+  intros H Hc Hp.
+  destruct (pyindex_pair cT pT z c p (table_exact_length _ _ _ H) Hc Hp) as [k [E1 E2]].
+  exact (Forall2_nth_error_pair _ _ _ _ _ _ H E1 E2).
+Qed.
+
+Local Open Scope R_scope.
+
+Lemma Q2R_zero : Q2R 0 = 0.
+Proof. unfold Q2R; cbn; lra. Qed.
+Lemma Q2R_one : Q2R 1 = 1.
+Proof. unfold Q2R; cbn; lra. Qed.
+
+Lemma Q2R_pevalQ a y : Q2R (pevalQ a y) = peval (map Q2R a) (Q2R y).
+Proof.
+  induction a as [|c r IH]; cbn [pevalQ map peval].
+  - apply Q2R_zero.
+  - rewrite Q2R_plus, Q2R_mult, IH; reflexivity.
+Qed.
+
+Lemma Q2R_qpow q n : Q2R (qpow q n) = Q2R q ^ n.
+Proof.
+  induction n as [|n IH]; cbn [qpow pow].
+  - apply Q2R_one.
+  - rewrite Q2R_mult, IH; reflexivity.
+Qed.
+
+Lemma Q2R_sumQ l : Q2R (sumQ l) = fold_right Rplus 0 (map Q2R l).
+Proof.
+  unfold sumQ; induction l as [|a l IH]; cbn [fold_right map].
+  - apply Q2R_zero.
+  - rewrite Q2R_plus, IH; reflexivity.
+Qed.
+
+Lemma Q2R_nonzero q : ~ (q == 0)%Q -> Q2R q <> 0.
+Proof. intros H E; apply H; apply eqR_Qeq; rewrite E, Q2R_zero; reflexivity. Qed.
+
+Lemma qpow_nonzero q n : ~ (q == 0)%Q -> ~ (qpow q n == 0)%Q.
+Proof.
+  intros H E. apply Qeq_eqR in E. rewrite Q2R_qpow, Q2R_zero in E.
+  exact (pow_nonzero _ _ (Q2R_nonzero _ H) E).
+Qed.
+
+(** the value computed by the executable model is the real-valued stencil of the row
+    that the row-selection rule picks *)
+Lemma derivQ_value offset coefT posT n order (f : Q -> Q) (F : R -> R) x dx lb ub c p :
+  (forall y, Q2R (f y) = F (Q2R y)) ->
+  pyindex coefT (offset order x dx lb ub) = Some c ->
+  pyindex posT (offset order x dx lb ub) = Some p ->
+  ~ (dx == 0)%Q ->
+  exists v, derivQ offset coefT posT n order f x dx lb ub = Some v /\
+            Q2R v = stencilR c p n F (Q2R x) (Q2R dx).
+Proof.
+  intros Hf Hc Hp Hdx. unfold derivQ. rewrite Hc, Hp.
+  eexists; split; [reflexivity|].
+  unfold stencilR. rewrite Q2R_sumQ, map_map.
+  assert (Hd : Q2R dx ^ n <> 0) by (apply pow_nonzero, Q2R_nonzero, Hdx).
+  induction (combine c p) as [|cp l IH]; cbn [map fold_right].
+  - unfold Rdiv; rewrite Rmult_0_l; reflexivity.
+  - rewrite IH, Q2R_mult, Q2R_div by (apply qpow_nonzero, Hdx).
+    rewrite Hf, Q2R_plus, Q2R_mult, Q2R_qpow. field. exact Hd.
+Qed.
+
+(** ** the composition theorem, generic in the tables and the row-selection rule *)
+Theorem derivQ_exact offset n coefT posT order d a x dx lb ub :
+  table_exact n coefT posT ->
+  Forall (fun c => length c = S d) coefT ->
+  (- Z.of_nat (length coefT) <= offset order x dx lb ub < Z.of_nat (length coefT))%Z ->
+  ~ (dx == 0)%Q -> (length a <= S d)%nat ->
+  exists v, derivQ offset coefT posT n order (pevalQ a) x dx lb ub = Some v /\
+            Q2R v = peval (pderivn n (map Q2R a)) (Q2R x).
+Proof.
+  intros HT HL Hr Hdx Ha.
+  destruct (pyindex_in_range coefT _ Hr) as [c Hc].
+  assert (Hr' := Hr). rewrite (table_exact_length _ _ _ HT) in Hr'.
+  destruct (pyindex_in_range posT _ Hr') as [p Hp].
+  destruct (table_exact_pyindex _ _ _ _ _ _ HT Hc Hp) as [_ Hrow].
+  assert (Hlen : length c = S d).
+  { rewrite Forall_forall in HL. apply HL. eapply pyindex_In; exact Hc. }
+  rewrite Hlen in Hrow. cbn [Nat.sub] in Hrow. rewrite Nat.sub_0_r in Hrow.
+  destruct (derivQ_value offset coefT posT n order (pevalQ a) (peval (map Q2R a))
+              x dx lb ub c p (Q2R_pevalQ a) Hc Hp Hdx) as [v [Hv Ev]].
+  exists v; split; [exact Hv|]. rewrite Ev.
+  apply Hrow; [rewrite map_length; exact Ha|apply Q2R_nonzero, Hdx].
+Qed.
+
+Local Close Scope R_scope.
+
+
+(** * Index-level model of numpy selections on the last axis (for the call sites of the
+      derivative helpers in EffectivePotential) *)
+Inductive pysel := Idx (z : Z) | UpTo (z : Z) | AllSel.   (* a[..., z]   a[..., :z]   a[..., :] *)
+
+Definition pynorm (len : nat) (z : Z) : option nat :=
+  if (z <? 0)%Z then
+    (if (Z.of_nat len + z <? 0)%Z then None else Some (Z.to_nat (Z.of_nat len + z)))
+  else if (z <? Z.of_nat len)%Z then Some (Z.to_nat z) else None.
+
+Definition sel (s : pysel) (len : nat) : option (list nat) :=
+  match s with
+  | Idx z => option_map (fun k => [k]) (pynorm len z)
+  | UpTo z =>
+      let stop := if (z <? 0)%Z then Z.max 0 (Z.of_nat len + z) else Z.min z (Z.of_nat len) in
+      Some (seq 0 (Z.to_nat stop))
+  | AllSel => Some (seq 0 len)
+  end.
+
+(** the [axis]/[xAxis]/[yAxis] argument of gradient/hessian: None, an int, or
+    [np.arange(self.fieldCount).tolist()] *)
+Inductive axes := AxNone | AxInt (z : Z) | AxFieldRange.
+Definition axes_sel (a : axes) (nf len : nat) : option (list nat) :=
+  match a with
+  | AxNone => Some (seq 0 len)
+  | AxInt z => option_map (fun k => [k]) (pynorm len z)
+  | AxFieldRange => Some (seq 0 nf)
+  end.
+
+Inductive scale_kind := FieldScale | TempScale.
+(** slots of [np.append(a, b)] where a field-scale array has one entry per field *)
+Definition scale_slots (layout : list scale_kind) (nf : nat) : list scale_kind :=
+  flat_map (fun s => match s with FieldScale => repeat FieldScale nf | TempScale => [TempScale] end)
+           layout.
+
+Lemma pynorm_last nf : pynorm (S nf) (-1) = Some nf.
+Proof.
+  unfold pynorm. change (-1 <? 0)%Z with true. cbv iota.
+  destruct (Z.ltb_spec (Z.of_nat (S nf) + -1) 0); [lia|]. f_equal; lia.
+Qed.
+Lemma sel_last nf : sel (Idx (-1)) (S nf) = Some [nf].
+Proof. unfold sel. rewrite pynorm_last. reflexivity. Qed.
+Lemma sel_upto_last nf : sel (UpTo (-1)) (S nf) = Some (seq 0 nf).
+Proof.
+  unfold sel. change (-1 <? 0)%Z with true. cbv iota. do 2 f_equal. lia.
+Qed.
+Lemma axes_last nf : axes_sel (AxInt (-1)) nf (S nf) = Some [nf].
+Proof. unfold axes_sel. rewrite pynorm_last. reflexivity. Qed.
+Lemma sel_first len : sel (Idx 0) (S len) = Some [0%nat].
+Proof. unfold sel, pynorm. change (0 <? 0)%Z with false. cbv iota.
+  destruct (Z.ltb_spec 0 (Z.of_nat (S len))); [reflexivity|lia]. Qed.
+Lemma seq_snoc nf : seq 0 (S nf) = seq 0 nf ++ [nf].
+Proof. rewrite seq_S. reflexivity. Qed.
